@@ -71,10 +71,10 @@ func NewContext(opts py.ContextOpts) py.Context {
 // ModuleInit digests a ModuleImpl, compiling and marshalling as needed, creating a new Module instance in this Context.
 func (ctx *context) ModuleInit(impl *py.ModuleImpl) (*py.Module, error) {
 	err := ctx.pushBusy()
-	defer ctx.popBusy()
 	if err != nil {
 		return nil, err
 	}
+	defer ctx.popBusy()
 
 	if impl.Code == nil && len(impl.CodeSrc) > 0 {
 		impl.Code, err = py.Compile(string(impl.CodeSrc), impl.Info.FileDesc, py.ExecMode, 0, true)
@@ -113,10 +113,10 @@ func (ctx *context) ModuleInit(impl *py.ModuleImpl) (*py.Module, error) {
 // See interface py.Context defined in py/run.go
 func (ctx *context) ResolveAndCompile(pathname string, opts py.CompileOpts) (py.CompileOut, error) {
 	err := ctx.pushBusy()
-	defer ctx.popBusy()
 	if err != nil {
 		return py.CompileOut{}, err
 	}
+	defer ctx.popBusy()
 
 	tryPaths := defaultPaths
 	if opts.UseSysPaths {
@@ -279,10 +279,10 @@ func resolveRunPath(runPath string, opts py.CompileOpts, pathObjs []py.Object, t
 // See interface py.Context defined in py/run.go
 func (ctx *context) RunCode(code *py.Code, globals, locals py.StringDict, closure py.Tuple) (py.Object, error) {
 	err := ctx.pushBusy()
-	defer ctx.popBusy()
 	if err != nil {
 		return nil, err
 	}
+	defer ctx.popBusy()
 
 	return vm.EvalCode(ctx, code, globals, locals, nil, nil, nil, nil, closure)
 }
